@@ -597,6 +597,10 @@ func runProcs(c *Ctx) {
 				fmt.Sprintf("GOMAXPROCS=%d", mp),
 				fmt.Sprintf("VERIF_BUDGET=%.1f", remaining),
 				fmt.Sprintf("VERIF_SEED=%d", c.Seed))
+			if os.Getenv("GOGC") == "" {
+				// executions allocate and drop a whole system each; collect less often
+				cmd.Env = append(cmd.Env, "GOGC=400")
+			}
 			out, err := cmd.CombinedOutput()
 			outs[i] = out
 			if err != nil {
